@@ -1,12 +1,17 @@
 package c14lab
 
 import (
+	"bytes"
+	"context"
+	"encoding/json"
 	"sort"
 	"strings"
+	"time"
 
 	"gvh/fedlab"
 
 	"github.com/wundergraph/graphql-go-tools/execution/engine"
+	"github.com/wundergraph/graphql-go-tools/execution/graphql"
 	"github.com/wundergraph/graphql-go-tools/v2/pkg/engine/plan"
 	"github.com/wundergraph/graphql-go-tools/v2/pkg/engine/resolve"
 )
@@ -94,4 +99,47 @@ func (fx *Fix) Run(opText, opName string, vars []byte, mode Mode, d Decisions) (
 		ro.ExecutionOptions = []engine.ExecutionOptions{engine.WithPreFetchFieldAuthorizer(ba)}
 	}
 	return fx.Lab.Run(opText, vars, ro), pf, ba
+}
+
+// FrameWriter records every flushed frame of an incremental (@defer) response.
+type FrameWriter struct {
+	buf    bytes.Buffer
+	Frames [][]byte
+}
+
+func (w *FrameWriter) Write(p []byte) (int, error) { return w.buf.Write(p) }
+func (w *FrameWriter) Flush() error {
+	w.Frames = append(w.Frames, append([]byte(nil), w.buf.Bytes()...))
+	w.buf.Reset()
+	return nil
+}
+func (w *FrameWriter) Complete()        {}
+func (w *FrameWriter) Heartbeat() error { return nil }
+func (w *FrameWriter) Error(data []byte) {
+	w.Frames = append(w.Frames, append([]byte("ERROR "), data...))
+}
+
+// RunFrames executes the operation once more directly on the engine with a writer that keeps all
+// frames (Lab.Run's writer keeps only what is left after the last flush); the request log of this
+// run is not recorded.
+func (fx *Fix) RunFrames(opText, opName string, vars []byte, mode Mode, d Decisions) ([]byte, error) {
+	var opts []engine.ExecutionOptions
+	switch mode {
+	case Post:
+		opts = append(opts, engine.WithAuthorizer(&PostFetch{D: d}))
+	case Pre:
+		opts = append(opts, engine.WithPreFetchFieldAuthorizer(&Batch{D: d}))
+	}
+	req := &graphql.Request{OperationName: opName, Query: opText}
+	if len(bytes.TrimSpace(vars)) > 0 {
+		req.Variables = json.RawMessage(vars)
+	}
+	fw := &FrameWriter{}
+	ctx, cancel := context.WithTimeout(context.Background(), 20*time.Second)
+	defer cancel()
+	err := fx.Lab.Engine.Execute(ctx, req, fw, opts...)
+	if fw.buf.Len() > 0 {
+		fw.Flush()
+	}
+	return bytes.Join(fw.Frames, []byte("\n")), err
 }
